@@ -16,7 +16,7 @@ from .sorts import NONE, TBool, TInt, TNone, TReal, TStr, TVal, V, mk_bool, mk_i
 BUILTINS = {
     "len", "int", "str", "float", "bool", "min", "max", "abs", "any", "all", "sum", "isinstance", "list", "set", "dict",
     "tuple", "sorted", "zip", "enumerate", "range", "next", "iter", "cast", "type", "id", "repr", "round", "frozenset",
-    "reversed", "callable", "hasattr", "print", "parses_int", "cmp_to_key", "divmod",
+    "reversed", "callable", "hasattr", "print", "parses_int", "cmp_to_key", "divmod", "deque",
 }
 
 
@@ -1098,6 +1098,11 @@ def call_builtin(it, name, args, kwargs, node):
     if name == "abs":
         (a,) = args
         return V(a.sort, (z3.If(a.t >= 0, a.t, -a.t),))
+    if name == "deque" and not args and not kwargs:
+        # collections.deque(): used as a list (append / iteration / pop from the right); popleft is not modelled
+        r = S.TList(TVal).empty()
+        r.meta = "emptylit"
+        return r
     if name == "list":
         if not args:
             r = S.TList(TVal).empty()
